@@ -25,6 +25,6 @@ CONF = {
                     'gopacket.LayerString/LayerDump/LayerGoString total on non-nil layers (reflective); RadioTap has no String method, the String methods of its field types index nothing',
                     'hash/crc32 IEEE as the bitwise algorithm of the model', 'a RadioTapNamespace value is represented by the little-endian octets of its fields (bijection done by the harness)'],
     'trusted_base': ['model: coq/Model/LradiotapModel.v is a hand transcription of layers/radiotap.go (align, DecodeFromBytes, decodeRadioTapNamespace, decodeVendorNamespace, SerializeTo, serializeTo x2) as repaired by the fix: commits of agent-fixer and agent-ldot11'],
-    'explanation': 'Theorems over all byte strings / layer values about the Gallina model of the RadioTap codec: decoder (no panic, fuel bound of the Present chain, fresh = reused) and serializer (no panic, junk freedom); the round trip is stated in full (C06_radiotap_roundtrip_statement) and tested; proved parts for headers of radiotap namespaces only: the serializer writes exactly the layout rt_hdr (C06_radiotap_serialize_layout_partial) and the field walk of the decoder reads the values of a namespace back from that layout (C06_radiotap_fields_readback_partial); Present-chain and namespace-chain read-back lemmas and the decoder-given-its-reads lemma are proved in Proofs/LradiotapRt.v / LradiotapRt2a.v, their assembly into the end-to-end theorem is an unfinished draft (Proofs/LradiotapRt2.v.draft, outside the build); correspondence ties the model to layers/radiotap.go. C08-style checksums: none (ComputeChecksums is ignored by RadioTap).',
+    'explanation': 'Theorems over all byte strings / layer values about the Gallina model of the RadioTap codec: decoder (no panic, fuel bound of the Present chain, fresh = reused) and serializer (no panic, junk freedom); the round trip is stated in full (C06_radiotap_roundtrip_statement) and tested; proved parts for headers of radiotap namespaces only: the serializer writes exactly the layout rt_hdr (C06_radiotap_serialize_layout_partial) and the field walk of the decoder reads the values of a namespace back from that layout (C06_radiotap_fields_readback_partial); Present-chain and namespace-chain read-back lemmas and the decoder-given-its-reads lemma are proved in Proofs/LradiotapRt.v / LradiotapRt2a.v, their assembly into the end-to-end theorem is an unfinished draft (Proofs/LradiotapRt2.draft.txt, outside the build); correspondence ties the model to layers/radiotap.go. C08-style checksums: none (ComputeChecksums is ignored by RadioTap).',
     'mutations_tried': ['drop the RadioTapValues reset (caught)', 'Channel fits(4)->fits(2) (caught)', 'serializer drops RxFlags alignment (caught)', 'vendor skip check > -> >= (caught)', 'AMPDU alignment 4->8 in the decoder (caught)', 'serializer scratch size omits SkipLength (caught)'],
 }
